@@ -111,11 +111,11 @@ class SerDomain(Domain):
         if fval == Opaque("pickle.Pickler"):
             return [("ok", Obj("pickler", args[0] if args else None, args[1] if len(args) > 1 else kwargs.get("protocol", NONE)), state)]
         if fval == Opaque("pickle.Unpickler"):
-            return [("ok", Obj("unpickler", args[0] if args else None, None), state)]
+            return [("ok", Obj("unpickler", args[0] if args else None, _unpickle_opts(kwargs)), state)]
         if fval in (Opaque("pickle.dumps"),):
             return [("ok", Enc("pickle", args[1] if len(args) > 1 else kwargs.get("protocol", NONE), args[0] if args else None), state)]
         if fval in (Opaque("pickle.loads"),):
-            return [("ok", Dec("unpickle", None) if args and args[0] == Sym("stored") else TOP, state)]
+            return [("ok", Dec("unpickle", _unpickle_opts(kwargs)) if args and args[0] == Sym("stored") else TOP, state)]
         if isinstance(fval, tuple) and fval and fval[0] == "meth":
             _, obj, attr = fval
             if isinstance(obj, Obj) and obj.kind == "pickler" and attr == "dump":
@@ -126,7 +126,7 @@ class SerDomain(Domain):
             if isinstance(obj, Obj) and obj.kind == "unpickler" and attr == "load":
                 src = obj.a
                 ok = isinstance(src, Obj) and src.kind == "bytesio" and src.a == Sym("stored")
-                return [("ok", Dec("unpickle", None) if ok else TOP, state)]
+                return [("ok", Dec("unpickle", obj.b) if ok else TOP, state)]
             if obj == Sym("value") and attr == "encode":
                 return [("ok", Enc("encode", args[0].v if args and isinstance(args[0], Const) else "utf-8", Sym("value")), state)]
             if obj == Sym("stored") and attr == "decode":
@@ -153,6 +153,18 @@ class SerDomain(Domain):
             if res is not None:
                 return res
         return [("ok", TOP, state)]
+
+
+def _unpickle_opts(kwargs):
+    """Non-default keyword options of pickle.loads / pickle.Unpickler, or None."""
+    defaults = {"fix_imports": True, "encoding": "ASCII", "errors": "strict", "buffers": None}
+    out = []
+    for k, v in sorted(kwargs.items()):
+        if k.startswith("**"):
+            out.append((k, "?"))
+        elif not (isinstance(v, Const) and k in defaults and v.v == defaults[k]):
+            out.append((k, v.v if isinstance(v, Const) else str(v)))
+    return tuple(out) or None
 
 
 def codec(c):
@@ -193,6 +205,8 @@ def inverse_ok(tag, enc, dec):
         return (ok and tag == "int"), "decimal text must be undone by int() and used for exact int only (type %s: a bool or int subclass would come back as int; decoder %s)" % (tag, dec)
     if enc.kind == "pickle":
         ok = isinstance(dec, Dec) and dec.kind == "unpickle"
+        if ok and dec.param is not None:
+            return False, "the unpickler is given non-default options %s that the pickler does not mirror: for some protocols / values what was written cannot be read back (e.g. fix_imports=False drops the Python 2 module-name mapping that protocol <= 2 pickles of builtins rely on)" % (dict(dec.param),)
         return ok, "a pickled value must be unpickled (decoder %s)" % (dec,)
     return False, "unknown encoder %s" % (enc,)
 
